@@ -34,6 +34,7 @@ RULE = (
     "inside or outside the box, or the constructor's default (origin) - so that queries lie below, above and on both "
     "sides of the base point. Oracle: f evaluated directly from its coefficients (tolerance 1e-10 x "
     "sum_m |c_m| prod max|x_i|); gradient(axis) of a linear f equals the coefficient of that axis (1e-10 x scale / h); "
+    "gradient(axis - d) (axis counted from the back) equals gradient(axis) unless the table refuses it; "
     "the AdaptiveInterpolationTable with the same resolution, queried batch by batch, equals the standard table "
     "(values, and gradients along every axis); any exception raised by either table for a point of the box "
     "(including the tables' internal AssertionErrors) is a violation. A third of the cases are query histories on one "
@@ -62,7 +63,7 @@ ASSUMPTIONS = [
 ]
 REQUIRED = {
     "box-int-dtype": 0.1, "box-int-dtype-fractional-h": 0.06,
-    "kind-values": 0.2, "kind-gradient": 0.2, "query-history": 0.15, "same-array-modified-in-place": 0.12,
+    "kind-values": 0.2, "kind-gradient": 0.2, "grad-negative-axis": 0.15, "query-history": 0.15, "same-array-modified-in-place": 0.12,
     "same-array-unmodified": 0.06, "hist-interp-after-modify": 0.08, "hist-grad-after-modify": 0.04, "f-linear": 0.2, "f-multilinear": 0.2,
     "d1": 0.08, "d2": 0.15, "d3": 0.15, "d4": 0.05,
     "pt-upper-face": 0.2, "pt-lower-face": 0.2, "pt-node": 0.2, "pt-interior": 0.3,
@@ -455,6 +456,19 @@ def check(s):
                                   what=f"AdaptiveInterpolationTable.gradient(axis={ax}) vs coefficient, batch {bi}")
                 require_close(ga[0], g[0], "adaptive-grad-vs-standard", rtol=1e-10, atol=0.0, scale=gscale,
                               what=f"adaptive vs standard gradient(axis={ax}), batch {bi}")
+                # the axis counted from the back (numpy convention): the same derivative, or a refusal - never a
+                # silently different array
+                for tb, nm in ((table, "InterpolationTable"), (adaptive, "AdaptiveInterpolationTable")):
+                    try:
+                        gn = tb.gradient(x.copy(), ax - d)
+                    except (IndexError, ValueError, AssertionError, TypeError):
+                        labels.append("grad-negative-axis-refused")
+                        continue
+                    require(gn.shape == g.shape, "grad-negative-axis-shape", f"{gn.shape}")
+                    require_close(gn[0], g[0], "grad-negative-axis", rtol=1e-10, atol=0.0, scale=gscale,
+                                  what=f"{nm}.gradient(axis={ax - d}) vs gradient(axis={ax}), batch {bi}")
+                if "grad-negative-axis" not in labels:
+                    labels.append("grad-negative-axis")
 
     nonconst = any(c != 0.0 for c in coef[1:])
     return {"labels": labels, "nontrivial": bool(nonconst and (d >= 2 or len(used) >= 3))}
